@@ -55,7 +55,7 @@ def mon_forced(ri):
 
 
 def run(ctx):
-    bdir, A = runcheck.setup(ctx, ["Wrap:stop_request|wrappers_pass|optimize_preserves_settings", "C03:stop_forced"])
+    bdir, A = runcheck.setup(ctx, ["Wrap:stop_request|wrappers_pass|optimize_preserves_settings", "C03:stop_forced"] + runcheck.drv("forced"))
     if bdir:
         ctx.algnames = A.names
         rng = random.Random(ctx.seed * 67 + 4)
@@ -165,6 +165,11 @@ def run(ctx):
                     ctx.violation({"alg": ri.name, "cause": "flag not cleared for the next run"}, "%s: the run after a forced stop returned FORCED_STOP again without a new request" % ri.name,
                                   {"stream": "run", "spec": r.spec})
         ctx.corr["forced stops"] = {"first_runs": n1, "second_runs_on_same_object": n2, "crash_or_hang_before_any_stop_request (see C03/C10)": unrelated, "max_further_callbacks_seen": worst}
+        try:
+            from .. import drivers
+            drivers.correspond(ctx, [(None, r, monitors.RunInfo(r, A)) for r in runs if r.status == "ok" and r.R and getattr(r, "part", 1) == 1], "forced stops")
+        except Exception as e:
+            ctx.broke("driver model correspondence", repr(e))
         try:
             firsts = [r for r in runs if getattr(r, "part", 1) == 1]
             res = swrap.replay_all(firsts, swrap.wrap_caps_line(ctx.alg))
